@@ -33,7 +33,65 @@ fn gen(rng: &mut Rng, tier: &str) -> Vec<(String, Value)> {
         let second = u.snap(&mut r, 1, 2);
         cases.push(("large".into(), json!({"first": first, "second": second, "serial": 7, "time": 1_800_000_000u64})));
     }
+    // aligned: the end of the announced list falls at chosen offsets around the 64000-byte threshold, so that
+    // the chunk boundary lands before, inside and after the separator between the two lists (22 bytes)
+    let targets: Vec<usize> = if tier == "thorough" { (63960..=64012).collect() } else { vec![63978, 63979, 63990, 64000, 64001] };
+    for t in targets {
+        if let Some(c) = aligned_case(&mut rng.fork(), t) { cases.push(("aligned".into(), c)); }
+    }
     cases
+}
+
+/// length of the text DeltaStream writes for one route origin (used only to steer the generator)
+fn origin_text_len(v: &Value) -> usize {
+    let o = origin_of(v);
+    let asn = format!("{}", o.asn);
+    let prefix = format!("{}/{}", o.prefix.addr(), o.prefix.prefix_len());
+    let ml = format!("{}", o.prefix.resolved_max_len());
+    format!("\n    {{\n        \"type\": \"routeOrigin\",\n        \"asn\": \"{}\",\n        \"prefix\": \"{}\",\n        \"maxLength\": {}\n    }}", asn, prefix, ml).len()
+}
+
+fn aligned_case(rng: &mut Rng, target: usize) -> Option<Value> {
+    let (serial, time) = (7u64, 1_800_000_000u64);
+    let header = format!("{{\n  \"reset\": false,\n  \"session\": \"{}\",\n  \"serial\": {},\n  \"fromSerial\": {},\n  \"generated\": {},\n  \"generatedTime\": \"{}\",\n  \"announced\": [",
+        "1790000000", serial + 1, serial, time, "2027-01-15T08:00:00Z").len();
+    // pool of distinct origins with varied text lengths
+    let mut pool: Vec<(Value, usize)> = Vec::new();
+    let mut seen = std::collections::HashSet::new();
+    while pool.len() < 900 {
+        let len = rng.range(8, 24) as u32;
+        let addr = (rng.next() as u32) & (!0u32 << (32 - len));
+        let asn = *rng.pick(&[7u64, 64500, 4200000001, 123, 65000]) + rng.below(5);
+        let v = json!([format!("{}/{}", std::net::Ipv4Addr::from(addr), len), rng.range(len as u64, 32), asn]);
+        let o = origin_of(&v);
+        if seen.insert((o.prefix.prefix(), o.prefix.resolved_max_len(), o.asn)) { let l = origin_text_len(&v); pool.push((v, l)); }
+    }
+    let withdrawn = vec![json!(["192.0.2.0/24", 24, 64999]), json!(["198.51.100.0/24", 24, 64998])];
+    // greedy fill, then finish exactly with one or two items (each item after the first costs one comma)
+    let mut chosen: Vec<usize> = Vec::new();
+    let mut total = header;
+    let mut i = 0;
+    while i < pool.len() && total + 1300 < target { total += pool[i].1 + if chosen.is_empty() { 0 } else { 1 }; chosen.push(i); i += 1; }
+    // subset-sum over the next 300 pool items for the exact remaining distance (each item costs its text + a comma)
+    let deficit = target - total;
+    let rest: Vec<usize> = (i..pool.len().min(i + 300)).collect();
+    let mut reach: Vec<Option<Vec<usize>>> = vec![None; deficit + 1];
+    reach[0] = Some(vec![]);
+    for &a in &rest {
+        let cost = pool[a].1 + 1;
+        for d in (cost..=deficit).rev() {
+            if reach[d].is_none() {
+                if let Some(prev) = reach[d - cost].clone() { let mut v = prev; v.push(a); reach[d] = Some(v); }
+            }
+        }
+        if reach[deficit].is_some() { break }
+    }
+    if let Some(extra) = reach[deficit].clone() { chosen.extend(extra); total = target; }
+    else if std::env::var("C18_DEBUG").is_ok() { let mut cs: Vec<usize> = rest.iter().map(|&a| pool[a].1 + 1).collect(); cs.sort(); cs.dedup(); eprintln!("target {} deficit {} costs {:?}", target, deficit, cs); }
+    if total != target { return None }
+    let second: Vec<Value> = chosen.iter().map(|&k| pool[k].0.clone()).collect();
+    Some(json!({"first": {"origins": withdrawn, "keys": [], "aspas": []}, "second": {"origins": second, "keys": [], "aspas": []},
+        "serial": serial, "time": time, "announced_end": target}))
 }
 
 fn coq_bytes_s(s: &str) -> String { coq_nlist(s.bytes()) }
@@ -105,7 +163,7 @@ fn gen2(rng: &mut Rng, tier: &str) -> Vec<(String, Value)> {
         let mut a = v.clone(); a["reset"] = json!(false);
         let mut b = v; b["reset"] = json!(true);
         out.push((format!("{}.delta", class), a));
-        out.push((format!("{}.snapshot", class), b));
+        if class != "aligned" { out.push((format!("{}.snapshot", class), b)); }
     }
     out
 }
